@@ -197,18 +197,56 @@ def rel_C18(f):
     return f[0] in ("twin.y", "twin.ok") or f[0] in ALWAYS
 
 
+def example_case():
+    """the network of the repository's examples (Hegyi 2004, fig. 6.5): 4+2 segments, mainstream origin, metered on-ramp
+    at the junction, free destination, the demand scenario of examples/network_dynamics_in_casadi.py (2.5 h at 10 s)"""
+    import numpy as np
+    fr = common.fr
+    T = 10 / 3600
+    time = np.arange(0, 2.5, T)
+    d1 = np.interp(time, (2.0, 2.25), (3500, 1000))
+    d2 = np.interp(time, (0.0, 0.15, 0.35, 0.5), (500, 1500, 1500, 500))
+    lk = lambda up, dn, n: dict(up=up, down=dn, N=n, lam=fr(2), L=fr(1.0), rho_max=fr(180.0), rho_crit=fr(33.5), v_free=fr(102.0),  # noqa: E731
+                                a=fr(1.867), beta=fr(1.0), ctl=False, vsl=[], alpha=fr(0.0))
+    return {"id": "example-fig6.5", "src": "example",
+            "net": {"links": {"L1": lk("N1", "N2", 4), "L2": lk("N2", "N3", 2)},
+                    "origins": {"O1": dict(node="N1", kind="mainstream", C=fr(4000.0)), "O2": dict(node="N2", kind="ramp_out", C=fr(2000.0))},
+                    "dests": {"D1": dict(node="N3", kind="free")}},
+            "build": [["path", ["N1", "L1", "N2", "L2", "N3"], "O1", "D1"], ["origin", "O2", "N2"]],
+            "par": dict(T=fr(T), tau=fr(18 / 3600), eta=fr(60.0), kappa=fr(40.0), delta=fr(0.0122), phi=fr(0.0), hasDelta=True, hasPhi=False),
+            "opts": dict(randcases.NOOPTS),
+            "x": {"rho": {"L1": [fr(z) for z in (22, 22, 22.5, 24)], "L2": [fr(30.0), fr(32.0)]},
+                  "v": {"L1": [fr(z) for z in (80, 80, 78, 72.5)], "L2": [fr(66.0), fr(62.0)]}, "w": {"O1": fr(0.0), "O2": fr(0.0)}},
+            "u": {"vctrl": {}, "o": {"O1": "inf", "O2": fr(1.0)}},
+            "d": {"o": {"O1": fr(float(d1[0])), "O2": fr(float(d2[0]))}, "dest": {}},
+            "traj": {"steps": len(time), "sym": "SX", "compact": 0, "demand": {"O1": [fr(float(z)) for z in d1], "O2": [fr(float(z)) for z in d2]}}}
+
+
+def trajectory_cases(base_cases, tier, rng):
+    """closed-loop executions: the repository's example scenario (900 steps) and short feedback runs at every level"""
+    out = [example_case()]
+    k = 24 if tier == "quick" else 200
+    steps = 6 if tier == "quick" else 12
+    pick = [c for c in base_cases if c.get("point") in ("generic", "free", None)]
+    rng.shuffle(pick)
+    for i, c in enumerate(pick[:k]):
+        c2 = {kk: v for kk, v in c.items() if kk != "want"}
+        out.append(dict(c2, id=f"{c['id']}-traj", traj={"steps": steps, "sym": "SX" if i % 2 else "MX", "compact": i % 3}))
+    return out
+
+
 # per property: which cases, what to observe, which clauses decide
 PLANS = {
     "C01": dict(rel=rel_C01, want={"np": True, "fn": fns((0,))},
                 quick=dict(n=3, m=3, variants=2, generic=1, corners=12, rand=60),
                 thorough=dict(n=4, m=5, variants=3, generic=2, corners=12, rand=1500)),
-    "C02": dict(rel=rel_C02, want={"np": True, "fn": fns((0,), more_out=(True,))},
+    "C02": dict(rel=rel_C02, traj=True, want={"np": True, "fn": fns((0,), more_out=(True,))},
                 quick=dict(n=3, m=3, variants=2, generic=1, corners=12, rand=60),
                 thorough=dict(n=4, m=5, variants=3, generic=2, corners=12, rand=1500)),
-    "C03": dict(rel=rel_C03, want={"np": True, "fn": fns((0, 1, 2))},
+    "C03": dict(rel=rel_C03, traj=True, want={"np": True, "fn": fns((0, 1, 2))},
                 quick=dict(n=3, m=3, variants=1, generic=1, corners=12, rand=40),
                 thorough=dict(n=4, m=5, variants=2, generic=2, corners=12, rand=1000)),
-    "C05": dict(rel=rel_C05, want=lambda c: {"np": False, "fn": fns((0, 1, 2), more_out=(True,))
+    "C05": dict(rel=rel_C05, traj=True, want=lambda c: {"np": False, "fn": fns((0, 1, 2), more_out=(True,))
                                              + fns((0,), more_out=(True,), syms=("SX",), generic_calls=2,
                                                    params=[{"kind": "T", "el": "*"}, {"kind": "C", "el": "*"},
                                                            {"kind": "rho_crit", "el": "*"}])},
@@ -220,7 +258,7 @@ PLANS = {
     "C10": dict(rel=rel_C10, want={"np": True, "sens": True, "jac": ["SX", "MX"]},
                 quick=dict(n=3, m=3, variants=2, generic=1, corners=0, rand=40),
                 thorough=dict(n=4, m=5, variants=4, generic=1, corners=2, rand=600)),
-    "C04": dict(rel=rel_C04, want=lambda c: {"np": False, "fn": fns((-1, 0, 1, 2, 3), more_out=(False, True), generic_calls=2)
+    "C04": dict(rel=rel_C04, traj=True, want=lambda c: {"np": False, "fn": fns((-1, 0, 1, 2, 3), more_out=(False, True), generic_calls=2)
                                              + param_fns(c, levels=(0, 1, 2), more_out=(True,), nsets=1)},
                 quick=dict(n=3, m=3, variants=1, generic=1, corners=0, rand=30),
                 thorough=dict(n=4, m=5, variants=2, generic=1, corners=1, rand=400)),
@@ -236,7 +274,7 @@ PLANS = {
     "C16": dict(rel=rel_C16, want=lambda c: {"np": False, "fn": param_fns(c, levels=(0, 2), more_out=(False, True), nsets=3)},
                 quick=dict(n=3, m=3, variants=1, generic=1, corners=1, rand=30),
                 thorough=dict(n=4, m=5, variants=1, generic=1, corners=3, rand=300)),
-    "C17": dict(rel=rel_C17, want={"np": True, "fn": fns((0,), more_out=(True,))},
+    "C17": dict(rel=rel_C17, traj=True, want={"np": True, "fn": fns((0,), more_out=(True,))},
                 quick=dict(n=3, m=3, variants=2, generic=1, corners=12, rand=60),
                 thorough=dict(n=4, m=5, variants=3, generic=2, corners=12, rand=1500)),
 }
@@ -283,6 +321,8 @@ def run(pid: str, tier: str, plan=None, extra_cases=None) -> dict:
                 if "dupnames" in plan["derive"] and k == 0:
                     derived.append(dict(derive_dupnames(c, rng), id=f"{c['id']}-dup"))
         base = base + derived
+    if plan.get("traj"):
+        base = base + trajectory_cases(cases + rnd, tier, rng)
     allc = base + list(extra_cases or [])
     recs = dynpipe.execute(allc)
     byid = {r["id"]: r for r in recs}
